@@ -115,6 +115,23 @@ def run(ctx):
     cov = core.LineCoverage()
     hist = {"configs": 0}
     with cov:
+        # the random initialisation on short and on long recordings (tens of thousands of windows): from equal states of the two
+        # global generators it must give the same labels - whatever size-dependent path it takes
+        from fast_ticc import cluster_label_assignment as _cla
+        for Tn in (200, 6000, 25000) + ((70000,) if ctx.thorough else ()):
+            drng = np.random.default_rng(1400 + Tn)
+            datan = np.vstack([drng.normal(loc=1.5 * (i % 3), scale=1.0, size=(Tn // 6 + 1, 2)) for i in range(6)])[:Tn]
+            outs = []
+            for rep in range(2):
+                np.random.seed(2024); random.seed(2024)
+                with ctx.guard("build_initial_clusters", {"points": Tn, "K": 3}):
+                    outs.append([int(x) for x in _cla.build_initial_clusters(3, datan)])
+            ctx.count("initial-labels-repeat")
+            if len(outs) == 2 and outs[0] != outs[1]:
+                ctx.violation("monitor", "two initial labellings of the same %d points from equal states of the global NumPy and Python generators differ "
+                              "(%d of %d labels)" % (Tn, sum(a != b for a, b in zip(outs[0], outs[1])), Tn),
+                              {"case": {"call": "build_initial_clusters(3, data)", "points": Tn, "data": "six Gaussian segments, seed %d" % (1400 + Tn),
+                                        "np.random.seed": 2024, "random.seed": 2024}})
         # warm the caches, remember the cached objects
         run_cfg(BASE)
         ids0, content0 = cached_objects()
